@@ -1117,6 +1117,127 @@ fn run_toolchain(case: &Sx) -> Sx {
     Sx::L(out)
 }
 
+// ------------------------------------------------------------------ leg rustinputs
+// The real rust `parse_arguments` + the real `RustInputsPackager::write_inputs` (hook `verif_write_inputs`) for
+// every spelling of a `--crate-type` list, with a dependency rlib on disk.
+// case: ( ( ( SPELL ty ... ) ... ) SIBLING KIND )   SPELL 0: `--crate-type V`, 1: `--crate-type=V`; V = tys joined by ','
+//        SIBLING: a lib*.a lies next to the rlib; KIND 0: rlib with a `rust.metadata.bin` member (hand-made ar),
+//        1: a real rlib built by the installed rustc (metadata member `lib.rmeta`), 2: an archive without a metadata member
+// obs:  uncacheable | complete | trimmed | missing | other
+
+fn ar_gnu(members: &[(&str, &[u8])]) -> Vec<u8> {
+    fn hdr(name: &str, size: usize) -> Vec<u8> {
+        format!("{:<16}{:<12}{:<6}{:<6}{:<8}{:<10}`\n", name, 0, 0, 0, 644, size).into_bytes()
+    }
+    let mut table = String::new();
+    let mut offs = vec![];
+    for (n, _) in members {
+        offs.push(table.len());
+        table.push_str(n);
+        table.push_str("/\n");
+    }
+    let mut out = b"!<arch>\n".to_vec();
+    out.extend(hdr("//", table.len()));
+    out.extend(table.as_bytes());
+    if out.len() % 2 == 1 {
+        out.push(b'\n');
+    }
+    for ((_, d), o) in members.iter().zip(offs) {
+        out.extend(hdr(&format!("/{}", o), d.len()));
+        out.extend(*d);
+        if out.len() % 2 == 1 {
+            out.push(b'\n');
+        }
+    }
+    out
+}
+
+fn real_rlib() -> Option<Vec<u8>> {
+    use std::sync::OnceLock;
+    static R: OnceLock<Option<Vec<u8>>> = OnceLock::new();
+    R.get_or_init(|| {
+        let td = tempfile::Builder::new().prefix("vh-c13rl-").tempdir_in("/dev/shm").ok()?;
+        std::fs::write(td.path().join("dep.rs"), "pub fn g() -> i32 { 41 }\n").ok()?;
+        let out = td.path().join("libdep.rlib");
+        let st = std::process::Command::new("rustc")
+            .args(["--crate-type", "rlib", "--crate-name", "dep", "-C", "metadata=0123abcd", "dep.rs", "-o"])
+            .arg(&out)
+            .current_dir(td.path())
+            .status()
+            .ok()?;
+        if !st.success() {
+            return None;
+        }
+        std::fs::read(out).ok()
+    })
+    .clone()
+}
+
+fn run_rustinputs(case: &Sx) -> Sx {
+    let td = tempfile::Builder::new().prefix("vh-c13ri-").tempdir_in("/dev/shm").unwrap();
+    let cwd = td.path().to_path_buf();
+    std::fs::create_dir_all(cwd.join("src")).unwrap();
+    std::fs::create_dir_all(cwd.join("target/deps")).unwrap();
+    std::fs::write(cwd.join("src/top.rs"), "extern crate dep; pub fn f() -> i32 { dep::g() + 1 }\n").unwrap();
+    let kind = case.arg(2).u64();
+    let rlib = if kind == 1 {
+        match real_rlib() {
+            Some(b) => b,
+            None => return Sx::sym("no_rustc"),
+        }
+    } else if kind == 2 {
+        // an archive without any metadata member
+        ar_gnu(&[("dep.dep.7rcbfp3g-cgu.0.rcgu.o", &[0x7fu8, b'E', b'L', b'F', 1, 2, 3, 4, 5, 6, 7, 8, 9, 10][..])])
+    } else {
+        ar_gnu(&[
+            ("rust.metadata.bin", &b"rust\0\0\0\x08metadata of dep"[..]),
+            ("dep.dep.7rcbfp3g-cgu.0.rcgu.o", &[0x7fu8, b'E', b'L', b'F', 1, 2, 3, 4, 5, 6, 7, 8, 9, 10][..]),
+        ])
+    };
+    let rpath = cwd.join("target/deps/libdep-0123abcd.rlib");
+    std::fs::write(&rpath, &rlib).unwrap();
+    if case.arg(1).as_bool() {
+        std::fs::write(cwd.join("target/deps/libdep-0123abcd.a"), b"!<arch>\n").unwrap();
+    }
+    let mut args: Vec<OsString> = vec![];
+    for opt in case.arg(0).list() {
+        let l = opt.list();
+        let v = l[1..].iter().map(|t| t.str()).collect::<Vec<_>>().join(",");
+        if l[0].as_bool() {
+            args.push(format!("--crate-type={}", v).into());
+        } else {
+            args.push("--crate-type".into());
+            args.push(v.into());
+        }
+    }
+    for a in [
+        "--crate-name", "top", "--emit=dep-info,link", "src/top.rs", "--out-dir", "target/deps", "--extern",
+        "dep=target/deps/libdep-0123abcd.rlib",
+    ] {
+        args.push(a.into());
+    }
+    let r = catch(|| comp::rust::verif_write_inputs(&args, &cwd, vec![cwd.join("src/top.rs")], vec![]));
+    match r {
+        Err(_) => Sx::sym("panic"),
+        Ok(Err(_)) => Sx::sym("error"),
+        Ok(Ok(None)) => Sx::sym("uncacheable"),
+        Ok(Ok(Some(tar))) => match tar_member(&tar, "libdep-0123abcd.rlib") {
+            None => Sx::sym("missing"),
+            Some(b) if b == rlib => Sx::sym("complete"),
+            // an ar archive with the metadata member only (no code-generation-unit object)
+            Some(b)
+                if b.len() < rlib.len()
+                    && b.starts_with(b"!<arch>\n")
+                    && !b.windows(7).any(|w| w == b".rcgu.o")
+                    && (b.windows(9).any(|w| w == b"lib.rmeta") || b.windows(17).any(|w| w == b"rust.metadata.bin")) =>
+            {
+                Sx::sym("trimmed")
+            }
+            Some(_) => Sx::sym("other"),
+        },
+    }
+}
+
 // ------------------------------------------------------------------ leg args
 
 fn os(b: &Sx) -> OsString {
@@ -1236,6 +1357,7 @@ fn main() {
         "fallback" => vh::run_lines(run_fallback),
         "request" => vh::run_lines(run_request),
         "toolchain" => vh::run_lines(run_toolchain),
+        "rustinputs" => vh::run_lines(run_rustinputs),
         "args" => vh::run_lines(run_args),
         _ => {
             eprintln!("usage: c13 status|fallback|request|toolchain|args");
